@@ -55,7 +55,7 @@ def _scenario(draw, tier):
             q.append(["interval", draw(st.sampled_from([0.95, 0.5, 0.9, 0.1, 1.0, 0.999, 0.33])), draw(_burn), draw(_thin),
                       draw(st.sampled_from([None, None, 1, 2, 5, 17, 1000]))])
         ops[-1].append(q)
-    return dict(cfg=cfg, ops=ops, marginal=draw(st.booleans()))
+    return dict(cfg=cfg, ops=ops, marginal=draw(st.booleans()), unimodal=draw(st.integers(0, 3)) == 0)
 
 
 def scenarios(tier):
@@ -105,24 +105,27 @@ def check_readout(V, h, S, P, burn, thin, stats):
             break
 
 
-def check_marginal(V, h, S, burn, thin, stats):
+def check_marginal(V, h, S, burn, thin, stats, unimodal=False):
     want = S[burn::thin]
-    if want.shape[0] < 4:
+    if want.shape[0] < (8 if unimodal else 4) or (unimodal and want.shape[0] > 400):
         return
     i = 0
     col = want[:, i]
-    if np.ptp(col) <= 0:
+    if np.ptp(col) <= 0 or (unimodal and np.unique(col).size < 6):
         return
     try:
-        m = lib_call("get_marginal", h.chain.get_marginal, i, burn=burn, thin=thin)
+        m = lib_call("get_marginal", h.chain.get_marginal, i, burn=burn, thin=thin, unimodal=unimodal)
     except LibRaised as e:
+        if unimodal:
+            stats["unimodal_fit_failed_skipped"] += 1  # the parametric fit may legitimately fail on odd samples
+            return
         _viol(V, "marginal.raised", "%s burn=%d thin=%d: %s" % (h.kind, burn, thin, e))
         return
-    stats["marginals"] += 1
+    stats["marginals_unimodal" if unimodal else "marginals"] += 1
     got = np.sort(np.asarray(m.sample, dtype=float).reshape(-1))
     if got.shape != col.shape or not np.array_equal(got, np.sort(col)):
-        _viol(V, "marginal.sample", "%s burn=%d thin=%d: marginal estimate of parameter %d was built from %d values that are "
-              "not the %d burned/thinned samples" % (h.kind, burn, thin, i, got.size, col.size))
+        _viol(V, "marginal.sample", "%s burn=%d thin=%d unimodal=%r: marginal estimate of parameter %d was built from %d values that "
+              "are not the %d burned/thinned samples" % (h.kind, burn, thin, unimodal, i, got.size, col.size))
 
 
 def _top_ok(B_S, B_P, R, Q, f, exact_count, limit):
@@ -250,9 +253,18 @@ def execute(sc):
                         check_readout(V, h, S, P, b, t, stats)
                         if sc["marginal"] and not V:
                             check_marginal(V, h, S, b, t, stats)
+                            if sc.get("unimodal") and not V and t > 1:
+                                check_marginal(V, h, S, b, t, stats, unimodal=True)
                     else:
                         b, t = _res(q[2], n), max(1, _res(q[3], n))
                         check_interval(V, h, S, P, q[1], b, t, q[4], stats)
+                    if not V:
+                        # a read-out must not change the chain it reads
+                        S2, P2 = h.rows()
+                        if S2.shape != S.shape or not np.array_equal(S2, S) or not np.array_equal(P2, P):
+                            _viol(V, "readout.pure", "%s: the stored chain changed as a side effect of the read-out %r "
+                                  "(samples equal: %s, log-probabilities equal: %s)"
+                                  % (h.kind, q, S2.shape == S.shape and np.array_equal(S2, S), P2.shape == P.shape and np.array_equal(P2, P)))
     finally:
         lc.cleanup_scratch()
     for k2, v in c.stats.items():
